@@ -28,6 +28,25 @@ WATCHDOG_S = 5
 
 
 import re as _re
+def _memberless_group(text):
+    """a configuration holds an address-group section whose body has no line that could be a member (nothing, or only
+    description / comment / blank lines) - a syntactic fact used to name known finding F10"""
+    lines = text.split("\n")
+    for i, ln in enumerate(lines):
+        if ln.startswith("object-group "):
+            body = []
+            for nx in lines[i + 1:]:
+                if nx[:1] in (" ", "\t"):
+                    body.append(nx.strip())
+                elif nx.strip() == "" or nx.startswith("!"):
+                    continue
+                else:
+                    break
+            if all(b == "" or b.startswith("description") or b.startswith("!") for b in body):
+                return True
+    return False
+
+
 _ZERO_MASK = _re.compile(r"\d+\.\d+\.\d+\.\d+[ \t]+0\.0\.0\.0[ \t]*$", _re.M)
 
 
@@ -201,7 +220,8 @@ def run(tier, seed):
         j, evs = by_tid[v["tid"]]
         out.append(dict(clause=v["clause"], features=dict(cls=j["cls"], outcome=evs[0]["outcome"], re=evs[0]["re"],
                                                           blank_input=not j["text"].strip(),
-                                                          zero_netmask_line=bool(_ZERO_MASK.search(j["text"]))), case=j, events=evs))
+                                                          zero_netmask_line=bool(_ZERO_MASK.search(j["text"])),
+                                                          memberless_group=_memberless_group(j["text"])), case=j, events=evs))
     outcomes = {}
     for e in events:
         outcomes[e["outcome"]] = outcomes.get(e["outcome"], 0) + 1
